@@ -334,6 +334,23 @@ class XT:
         r = _sum_axis(self.a, dim, keepdim)
         return self._new(r)
 
+    def m_mean(self, dim=None, keepdim=False):
+        if dim is None:
+            return self.m_sum() / Fraction(int(self.a.size))
+        n = self.a.shape[dim]
+        return self.m_sum(dim, keepdim) / Fraction(n)
+
+    def m_flip(self, *dims):
+        if len(dims) == 1 and isinstance(dims[0], (tuple, list)):
+            dims = tuple(dims[0])
+        return self._new(np.flip(self.a, axis=dims))
+
+    def m_expand(self, *shape):
+        if len(shape) == 1 and isinstance(shape[0], (tuple, list)):
+            shape = tuple(shape[0])
+        shape = tuple(self.a.shape[i - (len(shape) - self.a.ndim)] if s == -1 else s for i, s in enumerate(shape))
+        return self._new(np.broadcast_to(self.a, shape).copy())
+
     def m_sqrt(self):
         return self._new(_map(el_sqrt, self.a))
 
@@ -341,7 +358,13 @@ class XT:
         return self._new(_map(el_abs, self.a))
 
     def m_sign(self):
-        raise Unsupported('Tensor.sign has no model (use the contract of misc.stable_division)')
+        def sg(x):
+            if is_num(x):
+                return Fraction((x > 0) - (x < 0))
+            if isinstance(x, SV):
+                return SV(z3.If(x.e > 0, z3.RealVal(1), z3.If(x.e < 0, z3.RealVal(-1), z3.RealVal(0))))
+            raise Unsupported('Tensor.sign on polynomial elements (use the contract of misc.stable_division)')
+        return self._new(_map(sg, self.a))
 
     def m_clamp_min(self, m):
         return self._new(_map(lambda x: el_max(x, m), self.a))
@@ -651,6 +674,23 @@ def t_max(a, b=None):
     return a._new(_ensure_arr(f(a.a, as_array(b))), b if isinstance(b, XT) else None)
 
 
+def t_where(cond, a, b):
+    ca = cond.a if isinstance(cond, XT) else cond
+    aa, ba = as_array(a), as_array(b)
+    ca, aa, ba = np.broadcast_arrays(ca, aa, ba)
+    out = np.empty(ca.shape, dtype=object)
+    for idx in np.ndindex(*ca.shape):
+        c = ca[idx]
+        if isinstance(c, bool) or isinstance(c, np.bool_):
+            out[idx] = aa[idx] if c else ba[idx]
+        elif isinstance(c, SB):
+            out[idx] = SV(z3.If(c.e, to_z3(aa[idx]), to_z3(ba[idx])))
+        else:
+            raise Unsupported(f'torch.where condition element {c!r}')
+    base = a if isinstance(a, XT) else b
+    return base._new(out, b if isinstance(b, XT) else None)
+
+
 def t_sqrt(x):
     return x.m_sqrt()
 
@@ -677,7 +717,7 @@ def install(engine):
         'zeros_like': E('torch.zeros_like', t_zeros_like), 'full_like': E('torch.full_like', t_full_like),
         'zeros': E('torch.zeros', t_zeros), 'tensor': E('torch.tensor', t_tensor),
         'repeat_interleave': E('torch.repeat_interleave', t_repeat_interleave),
-        'max': E('torch.max', t_max), 'sqrt': E('torch.sqrt', t_sqrt), 'abs': E('torch.abs', t_abs),
+        'max': E('torch.max', t_max), 'where': E('torch.where', t_where), 'sqrt': E('torch.sqrt', t_sqrt), 'abs': E('torch.abs', t_abs),
         'is_tensor': E('torch.is_tensor', t_is_tensor), 'as_strided': E('torch.as_strided', t_as_strided),
         'is_grad_enabled': E('torch.is_grad_enabled', lambda: STATE['grad']),
         'enable_grad': E('torch.enable_grad', lambda: GradMode(True)),
